@@ -34,6 +34,32 @@ Proof.
     now rewrite Hst.
 Qed.
 
+(* the answer does not depend on WHICH errno said "not there", and is never an exception *)
+Lemma probe_errno_irrelevant : forall v raw e1 e2,
+  pl_readlink v (LTarget raw (SFails e1)) = pl_readlink v (LTarget raw (SFails e2)).
+Proof. intros. cbn [pl_readlink]. destruct (suffixb deleted_sfx (hd [] (split_on 0 raw))); reflexivity. Qed.
+
+Lemma probe_failure_is_an_answer : forall v raw e,
+  exists p, pl_readlink v (LTarget raw (SFails e)) = Val p
+            /\ (v_exe v = LTarget raw (SFails e) -> pl_exe v = Val p)
+            /\ (v_cwd v = LTarget raw (SFails e) -> pl_cwd v = Val p).
+Proof.
+  intros v raw e. cbn [pl_readlink].
+  destruct (suffixb deleted_sfx (hd [] (split_on 0 raw))) eqn:E.
+  - eexists. split; [reflexivity|]. split; intros H; unfold pl_exe, pl_cwd; rewrite H; cbn [pl_readlink]; now rewrite E.
+  - eexists. split; [reflexivity|]. split; intros H; unfold pl_exe, pl_cwd; rewrite H; cbn [pl_readlink]; now rewrite E.
+Qed.
+
+(* an unlinked target whose literal marked path cannot be reached for any reason: the path without the marker *)
+Lemma link_cleanup_any_errno : forall v path garbage e,
+  nul_free path = true -> path <> [] ->
+  pl_readlink v (to_link {| l_path := path; l_unlinked := true; l_garbage := garbage; l_lit_exists := false; l_errno := e |})
+  = Val path.
+Proof.
+  intros v path garbage e Hn Hne. apply link_cleanup. unfold wf_link. cbn [l_path l_unlinked l_lit_exists].
+  rewrite Hn. destruct path; [congruence|reflexivity].
+Qed.
+
 Definition withheld (l : link_res) : bool :=
   match l with LENOENT | LESRCH => true | _ => false end.
 
@@ -394,8 +420,8 @@ Proof.
 Qed.
 
 Example link_example :
-  wf_link {| l_path := bs "/tmp/a b (deleted)"; l_unlinked := true; l_garbage := Some (bs " (deleted)x"); l_lit_exists := false |} = true
-  /\ wf_link {| l_path := bs "/tmp/x (deleted)"; l_unlinked := false; l_garbage := None; l_lit_exists := true |} = true.
+  wf_link {| l_path := bs "/tmp/a b (deleted)"; l_unlinked := true; l_garbage := Some (bs " (deleted)x"); l_lit_exists := false; l_errno := ENOTDIR |} = true
+  /\ wf_link {| l_path := bs "/tmp/x (deleted)"; l_unlinked := false; l_garbage := None; l_lit_exists := true; l_errno := ENOENT |} = true.
 Proof. split; reflexivity. Qed.
 
 Example proc_example :
